@@ -1,4 +1,5 @@
 import Ivg.Model.Arc
+import Ivg.Lemmas.ArcCount
 import Ivg.Gen.Tie.RendererFields
 import Ivg.Obligations
 /-!
@@ -9,16 +10,23 @@ Go's `math.Sin/Cos/Acos` in `Ivg/Model/GoMath.lean`) and the `arc` case of `Rend
 
 Proved here, for every input:
 * a zero (or NaN) radius yields exactly one straight line to the endpoint MAPPED into pixel space;
-* every other arc is emitted as cubic segments only, at most 8 of them structurally, exactly `n` of them for the
-  computed segment count `n` when `0 ≤ n ≤ 8`, each produced by `arcSegment` for consecutive equal angle steps
-  starting at `θ₁` and ending at `θ₁ + Δθ·n/n`;
+* every other arc is emitted as cubic segments only, **at most FOUR of them** (`arc_at_most_four`, for all
+  float32 operands and renderer states including NaN and infinities), exactly `n` of them for the computed
+  segment count `n` when `0 ≤ n`, each produced by `arcSegment` for consecutive equal angle steps starting at
+  `θ₁` and ending at `θ₁ + Δθ·n/n`; the bound 4 is attained (`example` below);
 * the relative form IS the absolute form at the pen-relative endpoint converted back to viewBox space.
 
+How `n ≤ 4` is proved (`Ivg/Lemmas/FloatOrder.lean`, `FloatMono.lean`, `AtanRange.lean`, `ArcCount.lean`):
+every soft-float operation is a correct rounding of the exact rational result and correct rounding is
+monotone, so interval arithmetic on `F64` endpoints is sound; the kernel evaluates the polynomial quotient of
+Go's `xatan` on a few intervals; this bounds `satan`, `asin`, `acos` (`acos_range`: NaN or within `[0, π]`
+for EVERY argument); `Δθ = ±ret (± 2π towards zero)` then has `|Δθ| ≤ 2π` as floats, `2π / (π/2 + 0.001)`
+rounds below `4.0`, and `ceil`/`int64` of a float in `[0, 4]` is at most 4; a NaN `Δθ` converts to `minInt64`.
+
 NOT proved (float analysis / trigonometry; covered by the bit-exact correspondence and the arc monitor only):
-that `n ≤ 4` (needs `|Δθ| ≤ 2π`, i.e. the range of the ported `acos`), that the last segment ends within
-rounding of the mapped endpoint, that segment ends lie on the (scaled-up) ellipse, and the sweep/large-arc
-selection.  At exact arithmetic the pen-relative endpoint identity is `unabs (pen + rel x) = unabs pen + x`
-(see `Ivg/Lemmas/GeomQ.lean`).
+that the last segment ends within rounding of the mapped endpoint, that segment ends lie on the (scaled-up)
+ellipse, and the sweep/large-arc selection.  At exact arithmetic the pen-relative endpoint identity is
+`unabs (pen + rel x) = unabs pen + x` (see `Ivg/Lemmas/GeomQ.lean`).
 -/
 namespace Ivg.Props.C06
 open Ivg Num Ren
@@ -90,6 +98,64 @@ theorem arc_shape (z : Renderer F32 F64) (rx ry rot : F32) (la sw : Bool) (x y :
     exact arcSegments_cubes _ _ _ _ _ _ _ _ _ _ 8 0
   · left; exact arc_zero_radius z rx ry rot la sw x y h
 
+/-- **At most four cubic segments** (first clause of C06): for ALL float32 operands — radii, rotation,
+    endpoint, flags — and every renderer state, NaN and infinite values included, `AbsArcTo` emits at most
+    four drawing operations. -/
+theorem arc_at_most_four (z : Renderer F32 F64) (rx ry rot : F32) (la sw : Bool) (x y : F32) :
+    (arcF32 z rx ry rot la sw x y).length ≤ 4 :=
+  ArcCount.arc_at_most_four z rx ry rot la sw x y
+
+/-- **Shape of every arc, sharpened**: one mapped line (degenerate radii) or cubic segments only, at most 4. -/
+theorem arc_shape_four (z : Renderer F32 F64) (rx ry rot : F32) (la sw : Bool) (x y : F32) :
+    arcF32 z rx ry rot la sw x y = [.lineTo (z.absX x) (z.absY y)] ∨
+    ((arcF32 z rx ry rot la sw x y).length ≤ 4 ∧
+      ∀ op ∈ arcF32 z rx ry rot la sw x y, ∃ a b c d e f, op = .cubeTo a b c d e f) := by
+  rcases arc_shape z rx ry rot la sw x y with h | ⟨_, h⟩
+  · exact Or.inl h
+  · exact Or.inr ⟨arc_at_most_four z rx ry rot la sw x y, h⟩
+
+/-- **The segment count itself**: `n = int64(ceil(|Δθ| / (π/2 + 0.001)))`, with `Δθ` the sweep-adjusted
+    (render.go:557–563) angle between ANY two float64 vectors, is at most 4 (it is `minInt64` when `Δθ` is a
+    NaN). -/
+theorem segment_count_le_four (sw : Bool) (ux uy vx vy : F64) :
+    let d0 := arcAngle ux uy vx vy
+    let d := if sw then (if d0 < F64.ofInt 0 then d0 + twoPi else d0)
+             else (if F64.ofInt 0 < d0 then d0 - twoPi else d0)
+    (d.abs / segAngle).ceil.toInt64 ≤ 4 :=
+  ArcCount.segment_count_le_four sw ux uy vx vy
+
+/-- **The fuel of the model's segment loop is never binding**: with the count `n` that `AbsArcTo` computes, every
+    fuel `≥ 4` yields the same segments as the fuel 8 used in `arcF32`; the structurally recursive
+    `arcSegments` is the unbounded Go loop `for i := 0; i < n; i++`. -/
+theorem arcSegments_fuel_irrelevant (z : Renderer F32 F64) (cx cy t1 rx ry c s : F64) (sw : Bool)
+    (ux uy vx vy : F64) (fuel : Nat) (hf : 4 ≤ fuel) :
+    let d0 := arcAngle ux uy vx vy
+    let d := if sw then (if d0 < F64.ofInt 0 then d0 + twoPi else d0)
+             else (if F64.ofInt 0 < d0 then d0 - twoPi else d0)
+    let n := (d.abs / segAngle).ceil.toInt64
+    arcSegments z cx cy t1 d rx ry c s n fuel 0 = arcSegments z cx cy t1 d rx ry c s n 8 0 :=
+  ArcCount.arcSegments_fuel_irrelevant z cx cy t1 rx ry c s sw ux uy vx vy fuel hf
+
+/-- non-vacuity: fuel 4 is admissible -/
+example : (4 : Nat) ≤ 4 := Nat.le_refl 4
+
+/-- **Range of the ported `math.Acos`**: for EVERY binary64 argument (NaN, infinities and arguments outside
+    `[-1, 1]` included) the result is a NaN or satisfies `0 ≤ acos c ≤ π` with `π` the float64 `math.Pi` — the
+    exact mathematical range; in particular it lies inside `[-2π, 2π]`, which is all the segment count needs. -/
+theorem acos_range (c : F64) :
+    (GoMath.acos c).isNaN = true ∨ (F64.zero ≤ GoMath.acos c ∧ GoMath.acos c ≤ GoMath.pi) := by
+  rcases AtanRange.acos_range c with h | h
+  · exact Or.inl ((FloatMono.NaN_iff_isNaN _).1 h)
+  · exact Or.inr h
+
+/-- the structural step: the bound on the count from the range of `acos` alone -/
+theorem arc_at_most_four_of_acos_range (H : ArcCount.AcosRange) (z : Renderer F32 F64) (rx ry rot : F32)
+    (la sw : Bool) (x y : F32) : (arcF32 z rx ry rot la sw x y).length ≤ 4 :=
+  ArcCount.arc_at_most_four_of_acos_range H z rx ry rot la sw x y
+
+/-- non-vacuity of the hypothesis of `arc_at_most_four_of_acos_range`: it holds -/
+example : ArcCount.AcosRange := ArcCount.acosRange
+
 /-- **The relative form measures its endpoint from the pen**: `RelArcTo` is `AbsArcTo` at the pen-relative
     endpoint converted back to viewBox space (for any arc implementation and number types). -/
 theorem rel_is_abs {α β : Type} [Arith α] [Arith β] [Wide α β] (arc : ArcFn α β) (posInf : α) (z : Renderer α β)
@@ -112,7 +178,17 @@ example :
   intro z
   exact ⟨arc_zero_radius z _ _ _ _ _ _ _ (zero_radius_hyp _ _ (Or.inl rfl)), by decide +kernel⟩
 
+/-- the bound 4 is attained: at 128 px with the default viewBox the pen is at (−32, −32); the large clockwise
+    arc of radius 5 to (−31, −32) is emitted as exactly four cubics (and the small one as one) -/
+example :
+    let z : Renderer F32 F64 := ((Renderer.zero : Renderer F32 F64).setRasterizer ⟨0, 0, 128, 128⟩).reset F32.posInf defaultViewBox defaultPalette
+    (arcF32 z ⟨0x40a00000⟩ ⟨0x40a00000⟩ ⟨0⟩ true true ⟨0xc1f80000⟩ ⟨0xc2000000⟩).length = 4 ∧
+    (arcF32 z ⟨0x40a00000⟩ ⟨0x40a00000⟩ ⟨0⟩ false true ⟨0xc1f80000⟩ ⟨0xc2000000⟩).length = 1 := by
+  decide +kernel
+
 end Ivg.Props.C06
 #obligations C06 [Ivg.Props.C06.arc_zero_radius, Ivg.Props.C06.zero_radius_hyp, Ivg.Props.C06.arc_shape,
   Ivg.Props.C06.arcSegments_cubes, Ivg.Props.C06.arcSegments_length, Ivg.Props.C06.rel_is_abs,
-  Ivg.Props.C06.arc_disabled_silent, Ivg.Gen.Tie.renderer_fields_tie]
+  Ivg.Props.C06.arc_disabled_silent, Ivg.Props.C06.arc_at_most_four, Ivg.Props.C06.arc_shape_four,
+  Ivg.Props.C06.segment_count_le_four, Ivg.Props.C06.arcSegments_fuel_irrelevant, Ivg.Props.C06.acos_range,
+  Ivg.Props.C06.arc_at_most_four_of_acos_range, Ivg.Gen.Tie.renderer_fields_tie]
